@@ -113,6 +113,27 @@ func simplifyCurve(curve Path,
 				}
 			}
 			if j == len(curve)-1 {
+				if !breakTime2 {
+					// The closing segment curve[i]–curve[j] is a shortcut too: make
+					// sure it doesn't cause any self intersections, backing off in
+					// the same way as above if it does.
+					m := j
+					for m > i+1 &&
+						(segMakesNotSimple(curve[i], curve[m], []Path{out[0:i]}) ||
+							segMakesNotSimple(curve[i], curve[m], []Path{curve[m:]}) ||
+							segMakesNotSimple(curve[i], curve[m], otherCurves)) {
+						m--
+					}
+					if m < j {
+						i = m
+						out = append(out, curve[i])
+						if i < j-1 {
+							// Continue from the new starting point.
+							j = i + 1
+							continue
+						}
+					}
+				}
 				// Add last point regardless of distance.
 				out = append(out, curve[j])
 				breakTime = true
